@@ -49,7 +49,7 @@ theorem setLib (h : FW st t) (l : Lib) (hs : ∀ f, l = .sleeping f → HasRole 
 theorem setLibNone (h : FW st t) : FW (st.setTask t (fun x => { x with lib := .none })) t :=
   h.setLib .none (fun f hf => by cases hf) (fun g u f hf => by cases hf)
 
-theorem newFut (h : FW st t) : FW (newFut st).1 t ∧ Fresh (newFut st).1 st.nFuts :=
+theorem newFut (h : FW st t) : FW (newFut st).1 t ∧ FFresh (newFut st).1 st.nFuts :=
   ⟨⟨(finv_newFut h.inv).1, h.run, h.lt⟩, (finv_newFut h.inv).2⟩
 
 end FW
@@ -116,7 +116,7 @@ theorem spawnCore_task_ne (st : State) (g gs hs : Nat) (sf : Option Nat) {u : Na
   simp [spawnCore, hu]
 
 theorem fi_spawn {st : State} (h : FInv st) (g : Nat) (sf : Option Nat)
-    (hsf : ∀ f, sf = some f → Fresh st f) :
+    (hsf : ∀ f, sf = some f → FFresh st f) :
     FInv (spawn st g sf).1 ∧ ((spawn st g sf).1.tasks st.nTasks).startFut = sf ∧
       (spawn st g sf).1.nFuts = st.nFuts ∧ st.nTasks < (spawn st g sf).1.nTasks ∧
       ∀ t, t < st.nTasks →
@@ -124,7 +124,7 @@ theorem fi_spawn {st : State} (h : FInv st) (g : Nat) (sf : Option Nat)
   rw [spawn_eq]
   simp only []
   have i1 := finv_fsame h (fsame_newScope st false none)
-  have hsf1 : ∀ f, sf = some f → Fresh (newScope st false none).1 f :=
+  have hsf1 : ∀ f, sf = some f → FFresh (newScope st false none).1 f :=
     fun f hf => fresh_fsame (hsf f hf) (fsame_newScope st false none)
   have i2 := finv_spawnCore i1 g (st.groups g).scope (newScope st false none).2 sf hsf1
   have x3 := xc_spawnTail (spawnCore (newScope st false none).1 g (st.groups g).scope
@@ -139,7 +139,7 @@ theorem fi_spawn {st : State} (h : FInv st) (g : Nat) (sf : Option Nat)
     simp [newScope]
 
 theorem fw_spawn {st : State} {t : Nat} (h : FW st t) (g : Nat) (sf : Option Nat)
-    (hsf : ∀ f, sf = some f → Fresh st f) :
+    (hsf : ∀ f, sf = some f → FFresh st f) :
     FW (spawn st g sf).1 t ∧ ((spawn st g sf).1.tasks st.nTasks).startFut = sf ∧
       (spawn st g sf).1.nFuts = st.nFuts := by
   obtain ⟨a, b, c, d, e⟩ := fi_spawn h.inv g sf hsf
